@@ -312,6 +312,11 @@ def toy_packetizer(cfg):
     from paramiko.packet import Packetizer
     sink = Sink()
     p = Packetizer(sink)
+    return (p, sink, toy_install(p, cfg))
+
+
+def toy_install(p, cfg):
+    """Key switch on an existing Packetizer: set_outbound_cipher (+ compressor) for cfg; returns the engine."""
     eng = None
     if cfg["enc"]:
         eng = ToyCipher(cfg["atag"])
@@ -328,12 +333,14 @@ def toy_packetizer(cfg):
         p.c03_rc = RecComp(ZlibCompressor() if cfg["comp"] == "zlib" else ToyComp())
         p.c03_dec = zlib.decompressobj() if cfg["comp"] == "zlib" else ToyDecomp()
         p.set_outbound_compressor(p.c03_rc)
-    return p, sink, eng
+    return eng
 
 
-def toy_one(ctx, cfg, p, sink, eng, n, seq):
+def toy_one(ctx, cfg, p, sink, eng, n, seq, case_extra=None):
     payload = payload_of(n, cfg["bs"] + seq)
     case = {"drive": "toy", "cfg": dict(cfg), "seq": seq}
+    if case_extra:
+        case.update(case_extra)
     if eng is not None:
         eng.calls = []
     if p.c03_rc is not None:
@@ -463,125 +470,210 @@ def inc_iv(iv):
     return iv[:4] + ((int.from_bytes(iv[4:], "big") + 1) & (2 ** 64 - 1)).to_bytes(8, "big")
 
 
-def table_suite(ctx, ci, cname, cinfo, mi, mname, minfo, lens, server_mode, results, compression="none"):
-    """Drive one (cipher, MAC) suite; appends (input, summary, case) to results."""
-    from cryptography.hazmat.primitives.ciphers import Cipher
+class Receiver:
+    """Independent RFC-conforming receiver for one direction: keys by Transport._compute_key, engines straight
+    from the cryptography package, MAC by hmac."""
+
+    def __init__(self, t, cinfo, mname, minfo, server_mode):
+        from cryptography.hazmat.primitives.ciphers import Cipher
+        self.bs = cinfo["block-size"]
+        self.aead = bool(cinfo.get("is_aead", False))
+        self.etm = (not self.aead) and ETM_MARKER in mname
+        self.minfo = minfo
+        self.tag_len = 16 if self.aead else minfo["size"]
+        self.iv = t._compute_key("B" if server_mode else "A", cinfo.get("iv-size", self.bs))
+        key = t._compute_key("D" if server_mode else "C", cinfo["key-size"])
+        self.mac_key = t._compute_key("F" if server_mode else "E", minfo["class"]().digest_size)
+        if self.aead:
+            self.dec = cinfo["class"](key)
+        else:
+            self.dec = Cipher(cinfo["class"](key), cinfo["mode"](self.iv)).decryptor()
+
+    def exp(self):
+        return dict(bs=self.bs, excl=(self.aead or self.etm), enc=True, tag=self.tag_len)
+
+    def decrypt(self, wire):
+        tl = self.tag_len
+        if self.aead:
+            body = self.dec.decrypt(self.iv, wire[4:], wire[:4])
+            self.iv = inc_iv(self.iv)
+            return wire[:4] + body
+        if self.etm:
+            return wire[:4] + self.dec.update(wire[4:len(wire) - tl])
+        return self.dec.update(wire[:len(wire) - tl])
+
+    def mac_ok(self, seq, wire, plain):
+        if self.aead:
+            return True, None, None
+        body = wire[:len(wire) - self.tag_len] if self.etm else plain
+        want = pyhmac.new(self.mac_key, struct.pack(">I", seq) + body,
+                          self.minfo["class"]).digest()[:self.minfo["size"]]
+        got = wire[len(wire) - self.tag_len:]
+        return got == want, want, got
+
+
+def differing(items, i, key):
+    """Index of a table entry (rotating from i+1) whose framing-relevant key differs from entry i's."""
+    n = len(items)
+    for d in range(1, n):
+        j = (i + d) % n
+        if key(items[j]) != key(items[i]):
+            return j
+    return (i + 1) % n
+
+
+def table_packet(ctx, pk, sink, rx, raw_n, salt, seq, case0, ci, mi, zdec, results):
+    """Send one message through the real send_message, receive it independently, check, record.
+    Returns 'empty' | 'ok' | 'lost' (receiver stream state lost / send failed)."""
+    raw_payload = payload_of(raw_n, salt)
+    pk.rec_engine.calls = []
+    if pk.rec_comp is not None:
+        pk.rec_comp.last = None
+    case = dict(case0, seq=seq)
+    try:
+        pk.send_message(_Raw(raw_payload))
+    except Exception as e:
+        sink.take()
+        if raw_n == 0 and isinstance(e, IndexError):
+            ctx.count(("table", case0["cipher"], case0["mac"], case0.get("phase"), 0), nontrivial=True,
+                      kind="table-empty-message")
+            results.append((coq((ci, mi, (0, 0))), INDEX_ERR, dict(case, payload_len=0)))
+            return "empty"
+        ctx.fail("send-raises", "send_message raised %s for a negotiable suite" % type(e).__name__,
+                 case=dict(case, payload_len=raw_n), observed=repr(e)[:200])
+        return "lost"
+    wire = sink.take()
+    payload = framed_of(ctx, pk.rec_comp, zdec, raw_payload, case)
+    n = len(payload)
+    calls = list(pk.rec_engine.calls)
+    plain = None
+    try:
+        plain = rx.decrypt(wire)
+    except Exception as e:      # InvalidTag, ValueError on lengths, ...
+        ctx.fail("undecodable", "an RFC-conforming receiver cannot decrypt the packet (%s)" % type(e).__name__,
+                 case=dict(case, payload_len=raw_n, wire=wire))
+    if plain is not None and not rx.aead and len(plain) != len(wire) - rx.tag_len:
+        # a block cipher that was handed a partial block keeps it back
+        ctx.fail("alignment", "encrypted portion is not a whole number of cipher blocks (receiver's decryptor "
+                 "returned %d of %d bytes)" % (len(plain), len(wire) - rx.tag_len),
+                 case=dict(case, payload_len=raw_n, wire=wire))
+        plain = None
+    if plain is not None:
+        summ = parse_and_check(ctx, case, n, payload, wire, plain, calls, rx.exp())
+        if summ is not None and zdec is not None:
+            check_decompress(ctx, zdec, plain, n, raw_payload, case)
+        if summ is not None:
+            ok, want, got = rx.mac_ok(seq, wire, plain)
+            if not ok:
+                ctx.fail("mac-value", "appended MAC is not the negotiated HMAC over seq || %s"
+                         % ("ciphertext" if rx.etm else "plaintext packet"),
+                         case=dict(case, payload_len=raw_n, wire=wire), expected=want, observed=got)
+            results.append((coq((ci, mi, (raw_n, n))), summ, dict(case, payload_len=raw_n, framed_len=n)))
+    ctx.count(("table", case0["cipher"], case0["mac"], case0.get("phase"), raw_n), nontrivial=True,
+              kind=("table-aead" if rx.aead else ("table-etm" if rx.etm else "table-classic"))
+              + ("" if zdec is None else "-zlib") + ("-rekey" if case0.get("phase") == "after re-key" else ""))
+    return "ok" if plain is not None else "lost"
+
+
+def table_suite(ctx, ci, cname, cinfo, mi, mname, minfo, lens, server_mode, results, compression="none",
+                rekey_to=None, remote=None, rekey_lens=None):
+    """One Transport: the real _activate_outbound for (cipher, MAC), packets of the given lengths, then (rekey_to =
+    (ci2, mi2)) a second _activate_outbound on the SAME Transport / Packetizer for another suite and more packets.
+    remote = (cipher name, MAC name) negotiated for the opposite direction (differs from the local ones).
+    Appends (input, summary, case) to results."""
+    ciphers, macs = live_tables()
     t, sink = make_transport()
     t.server_mode = server_mode
-    t.local_cipher = cname
-    t.local_mac = mname
     t.local_compression = compression
+    t.remote_compression = "none"
     t.K = 0x1234567890ABCDEF1234567890ABCDEF ^ (ci * 977 + mi)
     t.H = hashlib.sha256(b"H" + cname.encode() + mname.encode()).digest()
     t.session_id = hashlib.sha256(b"sid").digest()
     t.kex_engine = types.SimpleNamespace(hash_algo=hashlib.sha256)
     t._remote_ext_info = None        # normally set while parsing the peer's KEXINIT
-    bs = cinfo["block-size"]
-    aead = bool(cinfo.get("is_aead", False))
-    etm = (not aead) and ETM_MARKER in mname
-    case0 = {"drive": "table", "cipher": cname, "mac": mname, "server_mode": server_mode,
-             "compression": compression,
-             "framing_class": [bs, aead, cname.endswith("-ctr"), etm, 16 if aead else minfo["size"],
-                               0 if aead else minfo["class"]().digest_size, compression]}
-
-    # NEWKEYS goes out under the previous (initial) state
-    t._activate_outbound()
-    wire = sink.take()
-    exp = dict(bs=8, excl=False, enc=False, tag=0)
-    summ = parse_and_check(ctx, dict(case0, phase="NEWKEYS before activation"), 1, b"\x15", wire, wire, [], exp)
-    ctx.count(("newkeys", cname, mname), kind="table-newkeys")
-    if summ is not None:
-        results.append((coq((-1, 0, (1, 1))), summ, dict(case0, phase="NEWKEYS", payload_len=1)))
+    session = {"cipher": cname, "mac": mname, "server_mode": server_mode, "compression": compression,
+               "rekey_to": list(rekey_to) if rekey_to else None, "remote": list(remote) if remote else None}
     pk = t.packetizer
+    rx = None           # receiver for the keys in force (None: before the first NEWKEYS)
+    seq = 0
     zdec = None
-    if compression != "none":
-        if pk.rec_comp is None:
-            ctx.fail("no-compressor", "_activate_outbound installed no compressor although %s was negotiated"
-                     % compression, case=case0)
-        else:
-            zdec = zlib.decompressobj()
-    if pk.rec_engine is None:
-        ctx.fail("no-engine", "_activate_outbound installed no cipher engine", case=case0)
-        return
-    # what _activate_outbound configured, against the negotiated algorithms
-    want_args = {"block_size": bs, "mac_size": 16 if aead else minfo["size"], "etm": etm, "aead": aead}
-    got_args = {k: pk.rec_args.get(k) for k in want_args}
-    if got_args != want_args:
-        ctx.fail("activate-args", "_activate_outbound configured the packetizer differently from the negotiated "
-                 "algorithms", case=case0, expected=want_args, observed=got_args)
-    # independent receiver: keys by Transport._compute_key, engines straight from cryptography
-    iv_size = cinfo.get("iv-size", bs)
-    iv = t._compute_key("B" if server_mode else "A", iv_size)
-    key = t._compute_key("D" if server_mode else "C", cinfo["key-size"])
-    digest = minfo["class"]().digest_size
-    mac_key = t._compute_key("F" if server_mode else "E", digest)
-    if aead:
-        dec = cinfo["class"](key)
-    else:
-        dec = Cipher(cinfo["class"](key), cinfo["mode"](iv)).decryptor()
-    seq = 1
-    tag_len = 16 if aead else minfo["size"]
-    for raw_n in lens:
-        raw_payload = payload_of(raw_n, ci * 11 + mi)
-        pk.rec_engine.calls = []
-        if pk.rec_comp is not None:
-            pk.rec_comp.last = None
-        case = dict(case0, seq=seq)
+    steps = [(ci, cname, cinfo, mi, mname, minfo, lens, "first keys")]
+    if rekey_to is not None:
+        ci2, mi2 = rekey_to
+        steps.append((ci2, ciphers[ci2][0], ciphers[ci2][1], mi2, macs[mi2][0], macs[mi2][1],
+                      rekey_lens if rekey_lens is not None else lens, "after re-key"))
+    for (sci, scname, scinfo, smi, smname, sminfo, slens, phase) in steps:
+        bs = scinfo["block-size"]
+        aead = bool(scinfo.get("is_aead", False))
+        etm = (not aead) and ETM_MARKER in smname
+        case0 = {"drive": "table", "cipher": scname, "mac": smname, "phase": phase, "session": session,
+                 "framing_class": [bs, aead, scname.endswith("-ctr"), etm, 16 if aead else sminfo["size"],
+                                   0 if aead else sminfo["class"]().digest_size, compression]}
+        t.local_cipher = scname
+        t.local_mac = smname
+        if remote is not None:
+            # what was negotiated for the opposite direction must not influence outgoing packets
+            t.remote_cipher, t.remote_mac = remote
+        pk.rec_args = None
+        old_engine = pk.rec_engine
         try:
-            pk.send_message(_Raw(raw_payload))
+            t._activate_outbound()
         except Exception as e:
-            sink.take()
-            if raw_n == 0 and isinstance(e, IndexError):
-                ctx.count(("table", cname, mname, 0), nontrivial=True, kind="table-empty-message")
-                results.append((coq((ci, mi, (0, 0))), INDEX_ERR, dict(case, payload_len=0)))
-                continue
-            ctx.fail("send-raises", "send_message raised %s for a negotiable suite" % type(e).__name__,
-                     case=dict(case, payload_len=raw_n), observed=repr(e)[:200])
-            break
+            ctx.fail("activate-raises", "_activate_outbound raised %s for a negotiable suite" % type(e).__name__,
+                     case=case0, observed=repr(e)[:200])
+            return
+        # NEWKEYS went out under the keys in force before this activation
         wire = sink.take()
-        payload = framed_of(ctx, pk.rec_comp, zdec, raw_payload, case)
-        n = len(payload)
-        calls = list(pk.rec_engine.calls)
-        plain = None
-        try:
-            if aead:
-                body = dec.decrypt(iv, wire[4:], wire[:4])
-                plain = wire[:4] + body
-                iv = inc_iv(iv)
-            elif etm:
-                plain = wire[:4] + dec.update(wire[4:len(wire) - tag_len])
-            else:
-                plain = dec.update(wire[:len(wire) - tag_len])
-        except Exception as e:      # InvalidTag, ValueError on lengths, ...
-            ctx.fail("undecodable", "an RFC-conforming receiver cannot decrypt the packet (%s)" % type(e).__name__,
-                     case=dict(case, payload_len=n, wire=wire))
-        if plain is not None and not aead and len(plain) != len(wire) - tag_len:
-            # a block cipher that was handed a partial block keeps it back
-            ctx.fail("alignment", "encrypted portion is not a whole number of cipher blocks (receiver's decryptor "
-                     "returned %d of %d bytes)" % (len(plain), len(wire) - tag_len),
-                     case=dict(case, payload_len=n, wire=wire))
-            plain = None
-        if plain is not None:
-            exp = dict(bs=bs, excl=(aead or etm), enc=True, tag=tag_len)
-            summ = parse_and_check(ctx, case, n, payload, wire, plain, calls, exp)
-            if summ is not None and zdec is not None:
-                check_decompress(ctx, zdec, plain, n, raw_payload, case)
-            if summ is not None and not aead:
-                body = wire[:len(wire) - tag_len] if etm else plain
-                want = pyhmac.new(mac_key, struct.pack(">I", seq) + body, minfo["class"]).digest()[:minfo["size"]]
-                if wire[len(wire) - tag_len:] != want:
-                    ctx.fail("mac-value", "appended MAC is not the negotiated HMAC over seq || %s"
-                             % ("ciphertext" if etm else "plaintext packet"),
-                             case=dict(case, payload_len=n, wire=wire), expected=want,
-                             observed=wire[len(wire) - tag_len:])
+        ctx.count(("newkeys", scname, smname, phase, session["cipher"], session["mac"]), kind="table-newkeys")
+        if rx is None:
+            exp = dict(bs=8, excl=False, enc=False, tag=0)
+            summ = parse_and_check(ctx, dict(case0, phase="NEWKEYS before " + phase), 1, b"\x15", wire, wire, [], exp)
             if summ is not None:
-                results.append((coq((ci, mi, (raw_n, n))), summ, dict(case, payload_len=raw_n, framed_len=n)))
-        ctx.count(("table", cname, mname, raw_n), nontrivial=True,
-                  kind=("table-aead" if aead else ("table-etm" if etm else "table-classic"))
-                  + ("" if compression == "none" else "-zlib"))
+                results.append((coq((-1, 0, (1, 1))), summ, dict(case0, phase="NEWKEYS", payload_len=1)))
+        else:
+            # encrypted NEWKEYS of a re-key: one more packet of the previous suite (compressed, if that is on)
+            try:
+                plain = rx.decrypt(wire)
+            except Exception as e:
+                plain = None
+                ctx.fail("undecodable", "NEWKEYS of a re-key cannot be decrypted with the keys in force (%s)"
+                         % type(e).__name__, case=dict(case0, wire=wire))
+            if plain is not None:
+                ok, want, got = rx.mac_ok(seq, wire, plain)
+                if len(plain) != len(wire) - rx.tag_len or not ok:
+                    ctx.fail("rekey-newkeys", "NEWKEYS of a re-key is not framed under the keys in force",
+                             case=dict(case0, wire=wire, plain=plain))
+                if zdec is not None:
+                    try:
+                        zdec.decompress(plain[5:len(plain) - plain[4]])
+                    except Exception:
+                        pass
         seq += 1
-        if plain is None:
-            break       # the stream state of the receiver is lost; one failing input is enough
+        if pk.rec_engine is None or pk.rec_engine is old_engine or pk.rec_args is None:
+            ctx.fail("no-engine", "_activate_outbound installed no cipher engine", case=case0)
+            return
+        if compression != "none" and zdec is None:
+            if pk.rec_comp is None:
+                ctx.fail("no-compressor", "_activate_outbound installed no compressor although %s was negotiated"
+                         % compression, case=case0)
+            else:
+                zdec = zlib.decompressobj()
+        elif compression != "none" and phase == "after re-key":
+            # _activate_outbound installs a fresh compressor at every key switch
+            zdec = zlib.decompressobj()
+        # what _activate_outbound configured, against the algorithms negotiated for THIS direction
+        want_args = {"block_size": bs, "mac_size": 16 if aead else sminfo["size"], "etm": etm, "aead": aead}
+        got_args = {k: pk.rec_args.get(k) for k in want_args}
+        if got_args != want_args:
+            ctx.fail("activate-args", "_activate_outbound configured the packetizer differently from the algorithms "
+                     "negotiated for the outbound direction", case=case0, expected=want_args, observed=got_args)
+        rx = Receiver(t, scinfo, smname, sminfo, server_mode)
+        for raw_n in slens:
+            st = table_packet(ctx, pk, sink, rx, raw_n, sci * 11 + smi, seq, case0, sci, smi, zdec, results)
+            if st == "lost":
+                return      # the stream state of the receiver is lost; one failing input is enough
+            if st == "ok":
+                seq += 1
 
 
 # --------------------------------------------------------------------------- run
@@ -626,6 +718,85 @@ def run_toy_drive(ctx, table_bs, only=None, builds=None):
     return results
 
 
+def switch_modes():
+    mk = lambda **kw: dict(dict(enc=True, etm=False, aead=False, sdctr=False, atag=16, set_bs=True, comp=None), **kw)
+    return [mk(bs=16, mac=12, digest=20, hash="sha1"),                      # classic, aes-cbc like
+            mk(bs=8, mac=16, digest=16, hash="md5"),                        # classic, 3des like
+            mk(bs=16, mac=20, digest=20, hash="sha1", sdctr=True),          # classic, ctr
+            mk(bs=16, mac=32, digest=32, hash="sha256", etm=True),          # EtM
+            mk(bs=8, mac=64, digest=64, hash="sha512", etm=True),           # EtM, 8-byte blocks
+            mk(bs=16, mac=16, digest=20, hash="sha1", aead=True)]           # AEAD
+
+
+def run_switch_drive(ctx, only=None):
+    """Key switches: ONE Packetizer taken through a sequence of set_outbound_cipher calls across framing modes
+    (re-key with different algorithms); framing is checked after every switch.  All ordered pairs of modes plus
+    seeded longer sequences."""
+    modes = switch_modes()
+    seqs = [[a, b] for a in range(len(modes)) for b in range(len(modes)) if a != b]
+    for _ in range(40 if ctx.thorough else 8):
+        k = ctx.rng.randrange(3, 6)
+        sq = [ctx.rng.randrange(len(modes))]
+        while len(sq) < k:
+            nxt = ctx.rng.randrange(len(modes))
+            if nxt != sq[-1]:
+                sq.append(nxt)
+        seqs.append(sq)
+    if only is not None:
+        seqs = [only]
+    results = []
+    for sq in seqs:
+        from paramiko.packet import Packetizer
+        sink = Sink()
+        p = Packetizer(sink)
+        seq = 0
+        for step, mi in enumerate(sq):
+            cfg = modes[mi]
+            eng = toy_install(p, cfg)
+            bs = cfg["bs"]
+            lens = [1, bs] if (step == 0 and only is None) else list(range(1, bs + 9)) + [4 * bs + 8]
+            for n in lens:
+                summ, case, flen = toy_one(ctx, cfg, p, sink, eng, n, seq,
+                                           case_extra={"drive": "switch", "sequence": sq, "step": step})
+                seq += 1
+                ctx.count(("switch", tuple(sq), step, n), nontrivial=True,
+                          kind="switch-%s-after-%s" % (mode_name(cfg), "none" if step == 0 else mode_name(modes[sq[step - 1]])))
+                if summ is not None:
+                    results.append((toy_input(cfg, n, flen), summ, dict(case, payload_len=n, framed_len=flen)))
+    return results
+
+
+def mode_name(cfg):
+    return "clear" if not cfg["enc"] else ("etm" if cfg["etm"] else ("aead" if cfg["aead"] else "classic"))
+
+
+def pick_remote(items, i, marker_key, size_key):
+    """A table entry for the opposite direction that frames differently from entry i (EtM-ness and size)."""
+    n = len(items)
+    order = [(i + d) % n for d in range(1, n)]
+    for j in order:
+        if marker_key(items[j]) != marker_key(items[i]) and size_key(items[j]) != size_key(items[i]):
+            return j
+    for j in order:
+        if marker_key(items[j]) != marker_key(items[i]) or size_key(items[j]) != size_key(items[i]):
+            return j
+    return order[0] if order else i
+
+
+def suite_plan(ctx, ciphers, macs, ci, mi):
+    """Seed-rotated parameters of one table-drive session."""
+    nc, nm = len(ciphers), len(macs)
+    rc = pick_remote(ciphers, ci, lambda x: bool(x[1].get("is_aead", False)), lambda x: x[1]["block-size"])
+    rm = pick_remote(macs, mi, lambda x: ETM_MARKER in x[0], lambda x: x[1]["size"])
+    # re-key partner: another cipher class and a MAC of the other EtM-ness (EtM/AEAD -> classic and back)
+    ci2 = (ci + 4 + ctx.seed) % nc
+    flip = [j for j in range(nm) if (ETM_MARKER in macs[j][0]) != (ETM_MARKER in macs[mi][0])]
+    mi2 = flip[(mi + ctx.seed) % len(flip)] if flip else (mi + 1) % nm
+    return dict(server_mode=bool((ci + mi + ctx.seed) % 2),
+                compression="zlib" if (ci + 2 * mi + ctx.seed) % 3 == 0 else "none",
+                remote=(ciphers[rc][0], macs[rm][0]), rekey_to=(ci2, mi2))
+
+
 def compare(ctx, fn, ty, results, what):
     if not results:
         return
@@ -648,6 +819,10 @@ def run(ctx):
                 "goes through send_message (IndexError expected) and through _build_packet directly; compress-then-"
                 "frame: one toy configuration per framing mode (paramiko's ZlibCompressor or an expanding stand-in) "
                 "and a seed-rotated third of the table suites with local_compression=zlib, independently inflated. "
+                "Key switches on the SAME Packetizer: toy drive = all ordered pairs of six framing modes plus seeded "
+                "sequences of 3-5 switches; table drive = every session re-keys once to a suite of another class "
+                "(second real _activate_outbound on the same Transport), and the algorithms of the opposite "
+                "direction (remote_cipher / remote_mac) always differ from the outbound ones. "
                 "Every case is a distinct (configuration, length) and non-trivial (a packet is built, written, "
                 "decrypted and parsed).")
     ctx.trusted += ["gen/c03.py AST translator (fail-closed) and the wrappers in coq/Model/C03.v",
@@ -666,15 +841,18 @@ def run(ctx):
     with pinned_urandom():
         builds = []
         toy = run_toy_drive(ctx, table_bs, builds=builds)
+        toy += run_switch_drive(ctx)
         table = []
         for ci, (cname, cinfo) in enumerate(ciphers):
             for mi, (mname, minfo) in enumerate(macs):
                 base, big = lengths_for(cinfo["block-size"], ctx.rng, ctx.thorough)
                 if not ctx.thorough and (ci + mi + ctx.seed) % 4:
                     big = []
-                table_suite(ctx, ci, cname, cinfo, mi, mname, minfo, base + big,
-                            server_mode=bool((ci + mi + ctx.seed) % 2), results=table,
-                            compression="zlib" if (ci + 2 * mi + ctx.seed) % 3 == 0 else "none")
+                plan = suite_plan(ctx, ciphers, macs, ci, mi)
+                bs2 = ciphers[plan["rekey_to"][0]][1]["block-size"]
+                table_suite(ctx, ci, cname, cinfo, mi, mname, minfo, base + big, results=table,
+                            rekey_lens=(list(range(0, 4 * bs2 + 9)) if ctx.thorough else list(range(0, bs2 + 9))),
+                            **plan)
     ctx.exhaustive = True
     ctx.log("toy drive: %d packets; table drive: %d packets over %d suites" % (len(toy), len(table),
                                                                              len(ciphers) * len(macs)))
@@ -691,6 +869,10 @@ def run(ctx):
             k = tuple(c["framing_class"][:6])       # the model is over the framed length: compression apart
             first.setdefault(k, (c["cipher"], c["mac"]))
             n, bs = c["payload_len"], c["framing_class"][0]
+            if c.get("phase") == "after re-key":
+                if n in (0, 1, bs - 5, bs, bs + 8):
+                    sel.append(r)
+                continue
             if first[k] == (c["cipher"], c["mac"]) or n in (0, 1, bs - 5, bs, 4 * bs + 8) or n > 4 * bs + 8:
                 sel.append(r)
         ctx.notes.append("quick tier: %d of %d table-drive packets compared with the model (all %d checked by "
@@ -715,17 +897,30 @@ def replay(ctx, rep):
                                 only={"cfg": case["cfg"], "payload_len": case["payload_len"]})
             ctx.count(("replay", repr(case)[:200]))
             compare(ctx, "run_toy", "((bool * bool * bool * bool) * (Z * Z * Z * Z) * (Z * Z))", res, "toy drive")
+        elif case.get("drive") == "switch":
+            res = run_switch_drive(ctx, only=list(case["sequence"]))
+            compare(ctx, "run_toy", "((bool * bool * bool * bool) * (Z * Z * Z * Z) * (Z * Z))", res, "key switches")
         elif case.get("drive") == "table":
             res = []
+            ses = case.get("session") or {"cipher": case["cipher"], "mac": case["mac"]}
             for ci, (cname, cinfo) in enumerate(ciphers):
                 for mi, (mname, minfo) in enumerate(macs):
-                    if cname == case["cipher"] and mname == case["mac"]:
+                    if cname == ses["cipher"] and mname == ses["mac"]:
+                        # the whole session again: same stream positions as the recorded case
+                        lens = list(range(0, 4 * cinfo["block-size"] + 9))
                         n = case.get("payload_len", 0)
-                        # same position in the cipher stream as the recorded case
-                        lens = list(range(1, n + 1)) if case.get("seq") == n else [n]
+                        if n not in lens and case.get("phase") != "after re-key":
+                            lens.append(n)
+                        rk = tuple(ses["rekey_to"]) if ses.get("rekey_to") else None
+                        rl = None
+                        if rk is not None:
+                            rl = list(range(0, 4 * ciphers[rk[0]][1]["block-size"] + 9))
+                            if n not in rl and case.get("phase") == "after re-key":
+                                rl.append(n)
                         table_suite(ctx, ci, cname, cinfo, mi, mname, minfo, lens,
-                                    server_mode=bool(case.get("server_mode")), results=res,
-                                    compression=case.get("compression", "none"))
+                                    server_mode=bool(ses.get("server_mode")), results=res,
+                                    compression=ses.get("compression", "none"), rekey_to=rk,
+                                    remote=tuple(ses["remote"]) if ses.get("remote") else None, rekey_lens=rl)
             compare(ctx, "run_table", "(Z * Z * (Z * Z))", res, "table drive")
         else:
             run(ctx)
